@@ -25,8 +25,8 @@ def gen_cases(tier, seed):
     rng = gen.rng_for(seed, ID, tier)
     cs = itertools.count(1)
     nshapes = 10 if tier == "quick" else 80
-    for fam in ("exact", "noisy"):
-        for _ in range(nshapes):
+    for fam in ("exact", "noisy", "int32", "uint8", "float32"):
+        for _ in range(nshapes if fam in ("exact", "noisy") else max(2, nshapes // 3)):
             N = int(rng.integers(2, 5))
             shape = [int(s) for s in rng.integers(2, 8 if N < 4 else 5, size=N)]
             dseed = int(rng.integers(0, 2 ** 31))
@@ -54,8 +54,18 @@ def _data(case):
         for r_ in range(R):
             core[(r_,) * len(shape)] = w[r_]
         H["ttensor"] = ttb.ttensor(ttb.tensor(core), [f.copy() for f in fm])
-    else:
+    elif case["fam"] == "noisy":
         A = A + 0.3 * rng.standard_normal(shape)
+    else:
+        # the same values stored in a narrower element type: the vectors must not depend on the storage type
+        A = A + 0.3 * rng.standard_normal(shape)
+        if case["fam"] == "int32":
+            A = np.round(A * 2.0e4).astype(np.int32)
+        elif case["fam"] == "uint8":
+            A = np.clip(np.round(np.abs(A) * 60.0), 0, 255).astype(np.uint8)
+        else:
+            A = (A * np.array([1.0e3 if i == 0 else 1.0 for i in range(shape[0])]).reshape([-1] + [1] * (len(shape) - 1))).astype(np.float32)
+        return A.astype(np.float64), {"tensor": ttb.tensor(A.copy())}
     H["tensor"] = ttb.tensor(A.copy())
     # a sparse holder of the same array: zero a few entries in both
     mask = rng.random(shape) < (0.0 if case["fam"] == "exact" else 0.3)
@@ -75,15 +85,12 @@ def run_case(case, ctx):
     ev, evec = np.linalg.eigh(G)
     ev, evec = ev[::-1], evec[:, ::-1]
     top = ev[0]
-    # domain: leading r eigenvalues well separated from each other and from the (r+1)-th
+    # domain of the spectral clauses: leading r eigenvalues well separated from each other and from the (r+1)-th
     lead = ev[: min(r + 1, In)]
-    if top <= 0 or np.any(lead[:r] < 1e-8 * top):
-        return
     gaps = lead[:-1] - lead[1:] if len(lead) > 1 else np.array([top])
-    if np.any(gaps < 0.02 * top):
-        return
+    separated = not (top <= 0 or np.any(lead[:r] < 1e-8 * top) or np.any(gaps < 0.02 * top))
     path = "iterative" if r < In - 1 else "dense"
-    ctx.feat(fam=case["fam"], path=path, flipsign=fs, r_eq_size=(r == In))
+    ctx.feat(fam=case["fam"], path=path, flipsign=fs, r_eq_size=(r == In), separated=separated)
     ref_sub = evec[:, :r]
     results = {}
     for name, X in H.items():
@@ -103,6 +110,9 @@ def run_case(case, ctx):
         if np.iscomplexobj(V) and np.max(np.abs(np.imag(V))) > 1e-12:
             continue
         ctx.check(np.linalg.norm(Vr.T @ Vr - np.eye(r)) <= 1e-8, op, "NOT-ORTHONORMAL", f"||V'V - I|| = {np.linalg.norm(Vr.T @ Vr - np.eye(r)):.3e}", holder=name)
+        if not separated:
+            ctx.tag("outside-spectral-domain")
+            continue
         rq = np.array([Vr[:, i] @ G @ Vr[:, i] for i in range(r)])
         res = max(np.linalg.norm(G @ Vr[:, i] - rq[i] * Vr[:, i]) for i in range(r))
         ctx.check(res <= 1e-7 * top, op, "NOT-EIGENVECTORS", f"max ||G v - (v'Gv) v|| = {res:.3e} (||G|| ~ {top:.3e})", holder=name)
